@@ -17,7 +17,7 @@ def run(ctx):
         import bundle as B, trading
         S = B.gen_market(rnd, ndays=rnd.randrange(10, 26))
         S["_plan_generic_close"] = True       # only this check's stream runs the scenario of finding F12 (generic CLOSE + CLOSE_TODAY resting together)
-        cfgk = trading.gen_config(rnd, S, None)
+        cfgk = trading.gen_config(rnd, S, {"p_init_pos": 0.2})
         # the two position-validation switches are independent: one of them off must not silence the other
         sw = rnd.random()
         if sw < 0.2:
